@@ -17,6 +17,7 @@ import (
 	"sort"
 	"strings"
 	"testing"
+	"time"
 
 	"github.com/aergoio/aergo/v2/mempool"
 	"github.com/aergoio/aergo/v2/types"
@@ -27,15 +28,15 @@ import (
 )
 
 type machine struct {
-	t      *rapid.T
-	N      *vnode.Node
-	mp     *mempool.MemPool
-	nusers int
-	hist   []string
-	seq    int
-	made   map[string]*types.Tx // every tx ever built, by hash
-	reorgs int
-	gapFills, removedInRun, stateChanges int
+	t                                                    *rapid.T
+	N                                                    *vnode.Node
+	mp                                                   *mempool.MemPool
+	nusers                                               int
+	hist                                                 []string
+	seq                                                  int
+	made                                                 map[string]*types.Tx // every tx ever built, by hash
+	reorgs                                               int
+	gapFills, removedInRun, stateChanges, evictedWithGap int
 }
 
 func (m *machine) stateNonce(u int) uint64 {
@@ -180,6 +181,8 @@ func TestC13Pool(t *testing.T) {
 		N.SwitchTo()
 		m := &machine{t: t, N: N, nusers: nusers, made: map[string]*types.Tx{}}
 		m.mp = mempool.VerifNew(N.CS.VerifCfg(), N.CS, N.Best())
+		// eviction is configured as with EnableFadeout and the default 12 h period (it only ever runs in that mode)
+		mempool.VerifSetEvictPeriod(12 * time.Hour)
 		N.Hub.MemPool.Drain()
 		heldModel := func() map[string]bool {
 			accs, _, _, _ := m.mp.VerifView()
@@ -194,7 +197,7 @@ func TestC13Pool(t *testing.T) {
 		steps := rapid.IntRange(3, 25).Draw(t, "steps")
 		for s := 0; s < steps; s++ {
 			best := N.Best()
-			action := rapid.SampledFrom([]string{"put", "put", "put", "put", "put", "remove", "block-from-pool", "block-outside", "reorg", "reput"}).Draw(t, "action")
+			action := rapid.SampledFrom([]string{"put", "put", "put", "put", "put", "remove", "block-from-pool", "block-outside", "reorg", "reput", "evict"}).Draw(t, "action")
 			switch action {
 			case "put":
 				u := rapid.IntRange(0, nusers-1).Draw(t, "user")
@@ -240,6 +243,46 @@ func TestC13Pool(t *testing.T) {
 				tx := m.made[rapid.SampledFrom(hs).Draw(t, "old")]
 				err := m.mp.VerifAdmit(tx)
 				m.hist = append(m.hist, fmt.Sprintf("reput(n%d)=%v", tx.GetBody().GetNonce(), err == nil))
+			case "evict":
+				// some accounts have been idle for longer than the eviction period; the periodic eviction runs. The run
+				// gives up after a few milliseconds, so an idle account may survive it, but it is taken or left as a whole
+				accs, _, _, _ := m.mp.VerifView()
+				if len(accs) == 0 {
+					continue
+				}
+				var aged []string
+				agedAcc := map[string]bool{}
+				before := heldModel()
+				for _, a := range accs {
+					if rapid.Bool().Draw(t, "idle") {
+						m.mp.VerifAge(a.Account)
+						aged = append(aged, fmt.Sprintf("%x:%v/%d", a.Account[:2], a.Nonces, a.Ready))
+						agedAcc[string(a.Account)] = true
+						if a.Ready < len(a.Nonces) {
+							m.evictedWithGap++
+						}
+					}
+				}
+				m.mp.VerifEvict()
+				got := heldModel()
+				for _, a := range accs {
+					left := 0
+					for _, h := range a.Hashes {
+						if got[string(h)] {
+							left++
+						}
+					}
+					if !agedAcc[string(a.Account)] && left != len(a.Hashes) {
+						t.Fatalf("eviction of idle accounts %v dropped %d transactions of account %x, which was not idle\nhistory: %s", aged, len(a.Hashes)-left, a.Account[:2], strings.Join(m.hist, " | "))
+					}
+					if agedAcc[string(a.Account)] && left != 0 && left != len(a.Hashes) {
+						t.Fatalf("eviction of idle account %x (%v, ready %d) removed only %d of its %d transactions from the lists\nhistory: %s", a.Account[:2], a.Nonces, a.Ready, len(a.Hashes)-left, len(a.Hashes), strings.Join(m.hist, " | "))
+					}
+				}
+				if len(got) > len(before) {
+					t.Fatalf("eviction added transactions")
+				}
+				m.hist = append(m.hist, fmt.Sprintf("evict(%s)", strings.Join(aged, ",")))
 			case "remove":
 				h := heldModel()
 				if len(h) == 0 {
@@ -357,6 +400,9 @@ func TestC13Pool(t *testing.T) {
 		if m.removedInRun > 0 {
 			classes = append(classes, "removal-inside-ready-run")
 		}
+		if m.evictedWithGap > 0 {
+			classes = append(classes, "eviction-of-account-with-gap")
+		}
 		if m.stateChanges > 0 {
 			classes = append(classes, "state-change")
 		}
@@ -419,8 +465,56 @@ func TestC13Concurrent(t *testing.T) {
 				}
 			}
 		}
+		// one more goroutine plays the block producer: it fetches from the pool, produces and connects a block on the
+		// node and hands the pool the block notification, while the others keep submitting
+		nblocks := rapid.IntRange(0, 3).Draw(t, "blocks")
+		takes := make([]int, nblocks)
+		for i := range takes {
+			takes[i] = rapid.IntRange(0, 100).Draw(t, "takePct")
+		}
+		prodErr := make(chan error, 1)
+		produced := 0
+		producer := func() {
+			var perr error
+			defer func() { prodErr <- perr }()
+			for i := 0; i < nblocks; i++ {
+				txs, err := m.mp.VerifGet(1 << 30)
+				if err != nil {
+					perr = fmt.Errorf("get: %v", err)
+					return
+				}
+				k := len(txs) * takes[i] / 100
+				var cands []*types.Tx
+				for _, tx := range txs[:k] {
+					cands = append(cands, tx.GetTx())
+				}
+				best := N.Best()
+				p, err := N.Produce(best, best.GetHeader().GetTimestamp()+1e9, cands, nil)
+				if err != nil {
+					perr = fmt.Errorf("produce: %v", err)
+					return
+				}
+				if err := N.AddOwn(p); err != nil {
+					perr = fmt.Errorf("connect: %v", err)
+					return
+				}
+				produced += len(p.Included)
+				for _, msg := range N.Hub.MemPool.Drain() {
+					if x, ok := msg.(*message.MemPoolDel); ok {
+						if err := m.mp.VerifOnBlock(x.Block); err != nil {
+							perr = fmt.Errorf("pool failed to process block %d: %v", x.Block.BlockNo(), err)
+							return
+						}
+					}
+				}
+			}
+		}
 		done := make(chan struct{})
 		start := make(chan struct{})
+		go func() {
+			<-start
+			producer()
+		}()
 		for w := 0; w < workers; w++ {
 			go func(js []job) {
 				<-start
@@ -445,10 +539,17 @@ func TestC13Concurrent(t *testing.T) {
 		for w := 0; w < workers; w++ {
 			<-done
 		}
-		m.hist = []string{fmt.Sprintf("%d workers, %d submissions", workers, len(all))}
+		if err := <-prodErr; err != nil {
+			t.Fatalf("block producer: %v", err)
+		}
+		m.hist = []string{fmt.Sprintf("%d workers, %d submissions, %d blocks with %d transactions", workers, len(all), nblocks, produced)}
 		m.check("at quiescence after concurrent operations")
-		rec.Case(fmt.Sprintf("workers=%d", workers), fmt.Sprintf("%d|%d|%v", workers, len(all), plans), workers >= 3 && len(all) >= 6, func() interface{} {
-			return map[string]interface{}{"workers": workers, "submissions": len(all)}
+		cls := fmt.Sprintf("workers=%d", workers)
+		if produced > 0 {
+			cls += ",blocks-with-pool-txs"
+		}
+		rec.Case(cls, fmt.Sprintf("%d|%d|%v|%v", workers, len(all), plans, takes), workers >= 3 && len(all) >= 6, func() interface{} {
+			return map[string]interface{}{"workers": workers, "submissions": len(all), "blocks": nblocks, "transactions in blocks": produced}
 		})
 	})
 }
